@@ -352,14 +352,14 @@ class GroupDriver(explore.Driver):
     def apply(self, s, ev):
         r = s.reg
         k = ev[0]
-        signal.signal(signal.SIGALRM, _alarm)
-        signal.setitimer(signal.ITIMER_REAL, 3)
+        signal.signal(signal.SIGVTALRM, _alarm)
+        signal.setitimer(signal.ITIMER_VIRTUAL, 3)
         try:
             return self._apply(s, r, ev, k)
         except Hang:
             return ["hang"]
         finally:
-            signal.setitimer(signal.ITIMER_REAL, 0)
+            signal.setitimer(signal.ITIMER_VIRTUAL, 0)
 
     def _apply(self, s, r, ev, k):
         if k == "system":
@@ -428,15 +428,15 @@ class GroupDriver(explore.Driver):
                 return
             if last[0] == "add_groups" and o[1] == "cyclic" and o[0] != "ValueError":
                 acc.violation(["group-edit", "add_groups", "cyclic-relationship-not-refused", "self" if last[1] == last[2] else "indirect"], case, "ValueError", o[0])
-        signal.signal(signal.SIGALRM, _alarm)
-        signal.setitimer(signal.ITIMER_REAL, 5)
+        signal.signal(signal.SIGVTALRM, _alarm)
+        signal.setitimer(signal.ITIMER_VIRTUAL, 5)
         try:
             self._oracle(acc, s, r, case, last)
         except Hang:
             s.hung = True
             acc.violation(["membership", "members", "does-not-terminate", "after-" + last[0]], case, "termination", "no answer within 5 s")
         finally:
-            signal.setitimer(signal.ITIMER_REAL, 0)
+            signal.setitimer(signal.ITIMER_VIRTUAL, 0)
 
     def _oracle(self, acc, s, r, case, last):
         for g in ("root", "G2", "G3", "G0", "G1"):  # users before the groups they use
